@@ -1,5 +1,6 @@
 import Eru.Book.ProofsSum
 import Eru.Book.ProofsRemap
+import Eru.Book.NodeResource
 /-
 C15 — Resource repair restores consistent usage.
 Property theorems only; helper lemmas live in Eru/Book/ProofsSum.lean.
@@ -69,6 +70,48 @@ theorem fix_misses_foreign_numa_counterexample :
   intro h
   have := h.2.2.2 "0"
   revert this; decide
+
+/-! ### lifted through cobalt's extraction and calcium's `NodeResource` -/
+
+/-- `Calcium.NodeResource(node, fix=true)` on a stored node whose usage has drifted arbitrarily and
+    whose recorded workloads fit: afterwards the cpumem usage equals the sum of the recorded
+    workloads' cpumem resources on every component (a workload without a cpumem entry counts as
+    the zero resource), and a following `NodeResource(node, fix=false)` reports no resource
+    difference — only what the other plugins report and the inspect failures of the engine.
+    ASSUMPTION (checked on the real code by the cluster group's lock-trace stream,
+    `C15:fix-without-pod-lock`): the listing of the node's workloads and the repair happen under
+    the pod lock, so `stored` is the same list for the check, the repair and the second check, and
+    no other operation changes the node in between. -/
+theorem nodeResource_fix_consistent (n : NodeInfo) (hw : WFNode n) (hv : Valid n) (stored : List StoredWorkload)
+    (hws : ∀ w ∈ extractCpumem stored, WFW w) (hfit : Fits n (extractCpumem stored))
+    (otherDiffs : List String) (inspectFails : String → Bool) :
+    let r := calciumNodeResource n stored true true true otherDiffs inspectFails
+    Consistent r.1.usage (extractCpumem stored) ∧ r.2.1 = some r.1.usage ∧
+    (calciumNodeResource r.1 stored true false true otherDiffs inspectFails).2.2 =
+      otherDiffs ++ (stored.filter fun w => inspectFails w.id).map (fun w => "inspect:" ++ w.id) ∧
+    (calciumNodeResource r.1 stored true false true otherDiffs inspectFails).1 = r.1 := by
+  obtain ⟨hc, hd, _⟩ := fix_consistent n hw hv (extractCpumem stored) hws hfit
+  have husage : (fixNodeResource n (extractCpumem stored)).2.1 = (fixNodeResource n (extractCpumem stored)).1.usage := by
+    unfold fixNodeResource
+    by_cases h0 : (resourceDiffs n (extractCpumem stored)).length = 0
+    · simp [h0]
+    · simp only [h0, if_false]
+      have hwf : WFNode { n with usage := repairedUsage (extractCpumem stored) } := by
+        obtain ⟨_, _, _, _, hs⟩ := sumWorkloads_spec (extractCpumem stored) hws
+        exact ⟨hw.cc, hw.cn, hs.1, hs.2⟩
+      have hval := validate_of_valid _ hwf hfit
+      unfold repairedUsage at hval
+      simp only [hval]
+  simp only [calciumNodeResource, managerNodeResourceInfo, Bool.not_true, Bool.false_eq_true, if_false, if_true, hd,
+    List.nil_append]
+  exact ⟨hc, by rw [husage], trivial, trivial⟩
+
+/-- If the cpumem plugin is not on the configured whitelist the manager never calls it: nothing
+    is checked and nothing is repaired (configuration, outside the property). -/
+theorem nodeResource_not_whitelisted (n : NodeInfo) (stored : List StoredWorkload) (inspect fix : Bool)
+    (otherDiffs : List String) (inspectFails : String → Bool) :
+    (calciumNodeResource n stored inspect fix false otherDiffs inspectFails).1 = n := by
+  simp [calciumNodeResource, managerNodeResourceInfo]
 
 /-- Without differences the repair changes nothing and reports nothing. -/
 theorem fix_noop_when_no_diffs (n : NodeInfo) (ws : List WorkloadRes) (h : resourceDiffs n ws = []) :
